@@ -289,7 +289,12 @@ func (l *localFS) KeysPrefix(_ context.Context, token, prefix, delimiter string,
 	defer l.exclusive.Unlock()
 
 	noRoot := !strings.HasPrefix(prefix, "/")
-	prefix = path.Clean("/" + prefix)
+	cleaned := path.Clean("/" + prefix)
+	if strings.HasSuffix(prefix, "/") && cleaned != "/" {
+		// a trailing separator is part of the prefix: "a/" must not match "ab/..."
+		cleaned += "/"
+	}
+	prefix = cleaned
 
 	// we cache the result for the duration of the fetch loop: during this period, localfs updates are not seen
 	search, ok := l.glob[prefix]
